@@ -11,6 +11,7 @@ pub use model::{Addresses, Header, SEPARATOR, TCP4, TCP6, UNKNOWN};
 pub use model::{PROTOCOL_PREFIX, PROTOCOL_SUFFIX};
 use std::borrow::Cow;
 use std::cmp::min;
+use std::iter::Peekable;
 use std::net::{AddrParseError, Ipv4Addr, Ipv6Addr};
 use std::str::{from_utf8, FromStr};
 
@@ -117,14 +118,18 @@ fn parse_header(header: &str) -> Result<Header, ParseError> {
 
 /// Parses the addresses and ports from a PROXY protocol header for IPv4 and IPv6.
 fn parse_addresses<'a, T: FromStr<Err = AddrParseError>, I: Iterator<Item = &'a str>>(
-    iterator: &mut I,
+    iterator: &mut Peekable<I>,
 ) -> Result<(T, T, u16, u16), ParseError> {
     let source_address = iterator.next().ok_or(ParseError::MissingSourceAddress)?;
     let destination_address = iterator
         .next()
         .ok_or(ParseError::MissingDestinationAddress)?;
     let source_port = iterator.next().ok_or(ParseError::MissingSourcePort)?;
-    let destination_port = iterator.next().ok_or(ParseError::MissingDestinationPort)?;
+    // An empty last piece means the input ends right after the separator: the port is yet to come.
+    let destination_port = iterator
+        .next()
+        .filter(|port| !port.is_empty() || iterator.peek().is_some())
+        .ok_or(ParseError::MissingDestinationPort)?;
 
     let source_address = source_address
         .parse::<T>()
